@@ -354,6 +354,32 @@ func pathrelStream(rng *rand.Rand, n int, tier string, out string) (*Summary, er
 		}
 		cf.add(fmt.Sprintf("RJoin %d %s %s %s", id, coqGP(pa), coqGP(pb), jo))
 		id++
+		// JoinPaths agrees with "prefix followed by suffix" also when the prefix's element slice is
+		// cut from a longer path (spare capacity): the longer path and an earlier join result on the
+		// same prefix must stay what they were (oracle; the model is functional)
+		if len(a.Elem) >= 2 && len(b.Elem) >= 1 {
+			sum.OracleRuns++
+			full := proto.Clone(a).(*gpb.Path)
+			want := proto.Clone(full).(*gpb.Path)
+			k := 1 + rng.Intn(len(full.Elem)-1)
+			cut := &gpb.Path{Elem: full.Elem[:k]}
+			j1, e1 := util.JoinPaths(cut, b)
+			var j1c *gpb.Path
+			if e1 == nil {
+				j1c = proto.Clone(j1).(*gpb.Path)
+			}
+			j2, e2 := util.JoinPaths(cut, &gpb.Path{Elem: []*gpb.PathElem{{Name: "zz-second"}}})
+			in := map[string]interface{}{"path": toJGP(a), "prefix_elems": k, "suffix": toJGP(b)}
+			switch {
+			case !proto.Equal(full, want):
+				sum.finding(Finding{Signature: "join/overwrites-path-sharing-prefix-array", What: "JoinPaths(prefix cut from a longer path, suffix) rewrote the longer path", Input: in, Observed: toJGP(full), Expected: toJGP(want)})
+			case e1 == nil && e2 == nil && !proto.Equal(j1, j1c):
+				sum.finding(Finding{Signature: "join/second-join-rewrites-first-result", What: "a second JoinPaths on the same prefix changed the result of the first", Input: in, Observed: toJGP(j1), Expected: toJGP(j1c)})
+			case e1 == nil && (len(j1c.Elem) != k+len(b.Elem) || !util.PathElemSlicesEqual(j1c.Elem[:k], want.Elem[:k]) || !util.PathElemSlicesEqual(j1c.Elem[k:], b.Elem)):
+				sum.finding(Finding{Signature: "join/not-prefix-then-suffix", What: "JoinPaths result is not the prefix followed by the suffix", Input: in, Observed: toJGP(j1c)})
+			}
+			_ = j2
+		}
 		if len(a.Elem) > 0 && len(b.Elem) > 0 {
 			cf.add(fmt.Sprintf("RElemEq %d %s %s %s", id, coqElem(a.Elem[0]), coqElem(b.Elem[0]), coqBool(util.PathElemsEqual(a.Elem[0], b.Elem[0]))))
 			id++
